@@ -18,7 +18,7 @@ CONSTANTS Conn, Char, Evented, Weak
 VARIABLES open,   \* SUBSET Conn   connections with a live (verified) session
           subs,   \* SUBSET (Conn \X Char)  server-side subscription flags
           val,    \* [Char -> 0..1]
-          got,    \* [Conn -> set of <<ch, v>>]  EVENTs delivered by the last action
+          got,    \* [Conn -> sequence of <<ch, v>>]  EVENTs delivered by the last action, in the order of their arrival
           dup,    \* BOOLEAN: the last action delivered some event twice
           appPanic, \* BOOLEAN: the last action panicked in the application's goroutine
           last
@@ -27,10 +27,10 @@ Guard(g) == g \notin Weak
 Vals == {0, 1}
 
 Init == /\ open = {} /\ subs = {} /\ val = [ch \in Char |-> 0]
-        /\ got = [c \in Conn |-> {}] /\ dup = FALSE /\ appPanic = FALSE
+        /\ got = [c \in Conn |-> <<>>] /\ dup = FALSE /\ appPanic = FALSE
         /\ last = <<"none">>
 
-Quiet == got' = [x \in Conn |-> {}] /\ dup' = FALSE /\ appPanic' = FALSE
+Quiet == got' = [x \in Conn |-> <<>>] /\ dup' = FALSE /\ appPanic' = FALSE
 
 Connect(c) == /\ c \notin open /\ open' = open \cup {c}
               /\ subs' = {s \in subs : s[1] # c}          \* a new connection has a new session: no subscriptions
@@ -57,7 +57,7 @@ Update(ch, v, origin, tag) ==
   /\ LET changed == v # val[ch] \/ ~Guard("no_event_on_same_value")
          tg == IF changed THEN Targets(ch, origin) ELSE {} IN
      /\ val' = [val EXCEPT ![ch] = v]
-     /\ got' = [c \in Conn |-> IF c \in tg THEN {<<ch, v>>} ELSE {}]
+     /\ got' = [c \in Conn |-> IF c \in tg THEN << <<ch, v>> >> ELSE <<>>]
      /\ dup' = (tg # {} /\ ~Guard("notified_once"))
      \* a notified connection that is not open any more: writing to it dereferences a vanished session
      /\ appPanic' = (\E c \in tg : c \notin open /\ ~Guard("write_tolerates_vanished_session"))
@@ -71,7 +71,7 @@ LocalSetRacingClose(ch, v, c) ==
   /\ LET changed == v # val[ch]
          tg == IF changed THEN Targets(ch, "app") \ {c} ELSE {} IN
      /\ val' = [val EXCEPT ![ch] = v]
-     /\ got' = [x \in Conn |-> IF x \in tg THEN {<<ch, v>>} ELSE {}]
+     /\ got' = [x \in Conn |-> IF x \in tg THEN << <<ch, v>> >> ELSE <<>>]
      /\ dup' = FALSE
      /\ appPanic' = (changed /\ <<c, ch>> \in subs /\ ~Guard("write_tolerates_vanished_session"))
   /\ open' = open \ {c}
@@ -92,10 +92,33 @@ RemoteWriteRace(c, d, ch, v) ==
   /\ IF Guard("compare_and_store_atomic")
      THEN \E first \in {c, d} : Update(ch, v, first, "RemoteRace")
      ELSE /\ val' = [val EXCEPT ![ch] = v]
-          /\ got' = [x \in Conn |-> IF v # val[ch] /\ x \in (Targets(ch, c) \cup Targets(ch, d)) THEN {<<ch, v>>} ELSE {}]
+          /\ got' = [x \in Conn |-> IF v # val[ch] /\ x \in (Targets(ch, c) \cup Targets(ch, d)) THEN << <<ch, v>> >> ELSE <<>>]
           /\ dup' = (v # val[ch] /\ (Targets(ch, c) \cap Targets(ch, d)) # {})
           /\ appPanic' = FALSE
           /\ last' = <<"RemoteRace", c, ch, v>> /\ UNCHANGED <<open, subs>>
+
+\* A change that is followed by a second change before the first one has been notified: the application's own callback
+\* answers the change to v by setting the value back (a momentary switch), or a second goroutine of the application sets
+\* it back at the same time.  Two changes: everybody who listens (but the originator of the first) is told v, then
+\* everybody who listens is told the value it went back to.  An event carries the value of ITS change (guard
+\* event_carries_change_value: without it the value is read when the event is written, and both events carry the later
+\* value), and the events of successive changes leave in the order of the changes (guard changes_notified_in_order:
+\* without it the callbacks of the second change run inside those of the first and its event overtakes).
+Nested(ch, v, origin, tag) ==
+  /\ origin = "app" \/ origin \in open
+  /\ v # val[ch]
+  /\ LET u == val[ch]
+         tg1 == Targets(ch, origin)
+         tg2 == Targets(ch, "app")
+         first(c) == IF c \in tg1 THEN << <<ch, IF Guard("event_carries_change_value") THEN v ELSE u>> >> ELSE <<>>
+         second(c) == IF c \in tg2 THEN << <<ch, u>> >> ELSE <<>> IN
+     /\ val' = val                                        \* v, then u again
+     /\ got' = [c \in Conn |-> IF Guard("changes_notified_in_order") THEN first(c) \o second(c) ELSE second(c) \o first(c)]
+     /\ dup' = FALSE /\ appPanic' = FALSE
+  /\ last' = <<tag, origin, ch, v>> /\ UNCHANGED <<open, subs>>
+\* two goroutines of the application: one sets the other value, one sets the current value.  Whichever stores first
+\* decides: the current value first is no change and one change follows; the other value first is two changes.
+LocalPair(ch) == LocalSet(ch, 1 - val[ch]) \/ Nested(ch, 1 - val[ch], "app", "Local")
 
 \* one PUT entry carrying a value AND ev (hap/http/characteristics.go:128-150: the value is written first, then the
 \* subscription changes); sub = TRUE subscribes, FALSE unsubscribes
@@ -104,7 +127,7 @@ RemoteWriteEv(c, ch, v, sub) ==
   /\ LET changed == v # val[ch] \/ ~Guard("no_event_on_same_value")
          tg == IF changed THEN Targets(ch, c) ELSE {} IN
      /\ val' = [val EXCEPT ![ch] = v]
-     /\ got' = [x \in Conn |-> IF x \in tg THEN {<<ch, v>>} ELSE {}]
+     /\ got' = [x \in Conn |-> IF x \in tg THEN << <<ch, v>> >> ELSE <<>>]
      /\ dup' = (tg # {} /\ ~Guard("notified_once"))
      /\ appPanic' = FALSE
   /\ subs' = IF sub THEN (IF ch \in Evented \/ ~Guard("subscribe_requires_ev_perm") THEN subs \cup {<<c, ch>>} ELSE subs)
@@ -116,6 +139,7 @@ Next == \/ \E c \in Conn : Connect(c) \/ Close(c)
         \/ \E ch \in Char, v \in Vals : LocalSet(ch, v) \/ \E c \in Conn : RemoteWrite(c, ch, v) \/ LocalSetRacingClose(ch, v, c) \/ GetterRead(c, ch, v)
         \/ \E ch \in Char, v \in Vals, c \in Conn, sub \in BOOLEAN : RemoteWriteEv(c, ch, v, sub)
         \/ \E ch \in Char, v \in Vals, c, d \in Conn : RemoteWriteRace(c, d, ch, v)
+        \/ \E ch \in Char, v \in Vals, o \in Conn \cup {"app"} : Nested(ch, v, o, "Nested")
 Spec == Init /\ [][Next]_vars
 
 \* ---- the property, phrased on observables only: `want` is the monitor's ghost (what each open connection asked for)
@@ -128,10 +152,15 @@ WantNext == want' = CASE last'[1] \in {"Sub", "RemoteSub"} /\ last'[3] \in Event
 GNext == Next /\ WantNext
 GSpec == GInit /\ [][GNext]_<<vars, want>>
 
-Expected(c) == IF /\ last'[1] \in {"Local", "Remote", "Getter", "LocalRace", "RemoteSub", "RemoteUnsub", "RemoteRace"}
+Listens(c, ch) == c \in open /\ <<c, ch>> \in want
+Expected(c) == IF last'[1] = "Nested"
+               THEN (IF Listens(c, last'[3]) /\ c # last'[2] THEN << <<last'[3], last'[4]>> >> ELSE <<>>)
+                    \o (IF Listens(c, last'[3]) THEN << <<last'[3], val[last'[3]]>> >> ELSE <<>>)
+               ELSE
+               IF /\ last'[1] \in {"Local", "Remote", "Getter", "LocalRace", "RemoteSub", "RemoteUnsub", "RemoteRace"}
                   /\ last'[4] # val[last'[3]]
                   /\ c \in open /\ c # last'[2] /\ <<c, last'[3]>> \in want
-               THEN {<<last'[3], last'[4]>>} ELSE {}
+               THEN << <<last'[3], last'[4]>> >> ELSE <<>>
 ExactlyOnceStep == (\A c \in Conn : got'[c] = Expected(c)) /\ ~dup' /\ ~appPanic'
 ExactlyOnceRule == [][ExactlyOnceStep]_<<vars, want>>
 View == <<open, subs, val, want>>
